@@ -711,7 +711,7 @@ def _alarm(signum, frame):
     raise Runaway("wall-clock watchdog")
 
 
-def run_impl(case, suspend=False, cancel_at=None, cancel_id=9):
+def run_impl(case, suspend=False, cancel_at=None, cancel_id=9, reply=False):
     """Run the asyncstdlib tool under a wall-clock watchdog."""
     import signal
     old = signal.signal(signal.SIGALRM, _alarm)
@@ -720,7 +720,7 @@ def run_impl(case, suspend=False, cancel_at=None, cancel_id=9):
     oldhook = sys.unraisablehook
     sys.unraisablehook = lambda u: unraisable.append("%s: %s" % (type(u.exc_value).__name__, u.exc_value))
     try:
-        r = _run_impl(case, suspend, cancel_at, cancel_id)
+        r = _run_impl(case, suspend, cancel_at, cancel_id, reply)
         # drop the iterator objects' frames now so that finalisers run inside the hook's scope
         import gc
         gc.collect()
@@ -734,7 +734,7 @@ def run_impl(case, suspend=False, cancel_at=None, cancel_id=9):
         signal.signal(signal.SIGALRM, old)
 
 
-def _run_impl(case, suspend=False, cancel_at=None, cancel_id=9):
+def _run_impl(case, suspend=False, cancel_at=None, cancel_id=9, reply=False):
     """Run the asyncstdlib tool on instrumented class-based sources. Returns dict(outcome, log, states, uses, srcs)."""
     plan = case.plan
     ctx = Ctx((plan[0], plan_exc(plan[1])) if plan else None)
@@ -750,7 +750,7 @@ def _run_impl(case, suspend=False, cancel_at=None, cancel_id=9):
     else:
         coro = consume_async(ctx, obj)
     if suspend:
-        res, toks = drive_tokens(coro, cancel_at, InjBase(cancel_id) if cancel_at is not None else None)
+        res, toks = drive_tokens(coro, cancel_at, InjBase(cancel_id) if cancel_at is not None else None, reply=reply)
     else:
         res = drive(coro)
         toks = []
